@@ -427,7 +427,7 @@ func newC02Env() *c02Env {
 		var os []model.Frame
 		for s := 0; s < model.NShapes; s++ {
 			q := model.BuildShape(f, s)
-			o := model.Observe(q)
+			o := model.ObserveAs(q, f)
 			o.AdoptMeta(f)
 			rs = append(rs, q)
 			os = append(os, o)
